@@ -122,6 +122,51 @@ def call(api, tree, pol, m, cols, form=0, rng=None):
     return o
 
 
+def call_history(tree, dec, hist, form=0, rng=None, inforce=None):
+    """a history of calls / derivations on ONE presync-decorated recorder (and the objects derived from it), every call on
+    the same argument objects -> one observation: what the recorder received step by step"""
+    import pyg_base as pg
+    reg = Registry()
+    obj = build_c(tree, reg, rng, int_series=True, colorder=form)
+    calls, rec_pos, rec_kw, rec_var = recorders()
+    spell = lambda how: SPELL[how][form % 3]
+    meth = lambda m: None if m == 'none' else m
+    is_list = tree['k'] == 'l'
+    var_kw = not is_list and (form % 2 == 1 or any(k not in KWS for k in tree['keys']))
+    objs = [pg.presync(rec_pos if is_list else rec_var if var_kw else rec_kw, index=spell(dec['join']), method=meth(dec['m']), columns=spell(dec['cols']))]
+    steps = []
+    for st in hist:
+        if st['op'] == 'derive':
+            objs.append(getattr(objs[st['f'] - 1], st['v']))        # f.ij / .oj / .lj / .rj / .ffill / .bfill
+            steps.append({'kind': 'derived'})
+            continue
+        f, ov, kw = objs[st['f'] - 1], st['ov'], {}
+        if ov['join'] != '-':
+            kw['join'] = spell(ov['join'])
+        if ov['m'] != '-':
+            kw['method'] = meth(ov['m'])
+        if ov['cols'] != '-':
+            kw['columns'] = spell(ov['cols'])
+        del calls[:]
+        err, _ = outcome((lambda: f(*obj, **kw)) if is_list else (lambda: f(**obj, **kw)))
+        if err is not None:
+            steps.append(err)
+            continue
+        out = []
+        for c in calls:
+            if is_list:
+                out.append({'k': 'l', 'items': [proj_c(c[POS[i]], reg) for i in range(len(tree['items']))]})
+            elif var_kw:
+                out.append({'k': 'd', 'cls': tree['cls'], 'keys': list(c.keys()), 'items': [proj_c(v, reg) for v in c.values()]})
+            else:
+                out.append({'k': 'd', 'cls': tree['cls'], 'keys': list(tree['keys']), 'items': [proj_c(c[k], reg) for k in tree['keys']]})
+        steps.append({'kind': 'calls', 'calls': out})
+    o = {'api': 'history', 'tree': tree, 'dec': dec, 'hist': hist, 'form': form, 'after': proj_c(obj, reg), 'out': {'kind': 'hist', 'steps': steps}}
+    if inforce is not None:
+        o['inforce'] = inforce          # what TLC's state machine printed (evidence; Trace_Sync recomputes it)
+    return o
+
+
 def kind_of(tree):
     ks = {l['k'] for l in leaves(tree)}
     return 'frames' if 'f' in ks else 'series' if 's' in ks else 'arrays' if 'a' in ks else 'plain'
@@ -134,6 +179,11 @@ def nodes(x):
 def case_key(o, want=None):
     """the matchable description of a failing case"""
     tree = o['tree']
+    if o['api'] == 'history':
+        return {'api': 'history', 'kind': kind_of(tree), 'how': o['dec']['join'], 'method': o['dec']['m'], 'cols': o['dec']['cols'], 'nested': nested_multi(tree),
+                'raised': next((s.get('cls', '') for s in o['out']['steps'] if s['kind'] == 'exc'), ''), 'form': o['form'], 'empty_frame_filled': False,
+                'overrides': [s['ov'] for s in o['hist'] if s['op'] == 'call'], 'derived': [s['v'] for s in o['hist'] if s['op'] == 'derive'],
+                'tree': tree, 'dec': o['dec'], 'hist': o['hist']}
     c = {'api': o['api'], 'kind': kind_of(tree), 'how': o['pol']['how'], 'method': o['m'], 'cols': o['cols']['how'], 'colpol': o['cols'],
          'nested': nested_multi(tree), 'raised': o['out'].get('cls', ''), 'form': o['form'],
          'dict_classes': sorted({x['cls'] for x in nodes(tree) if x['k'] == 'd'}),
@@ -183,7 +233,7 @@ def s2c(ctx, report, cases, budget):
         if m == 'none' and not only_reindex:
             apis.append('index')
         for api in apis:
-            o = call(api, tree, pol, m, cols, form=(ci + ei) % 3)
+            o = call(api, tree, pol, m, cols, form=(7 * ci + ei) % 36)
             ctx.evals += 1
             out = o['out']
             if o['after'] != tree:
@@ -216,6 +266,11 @@ def rand_index(rng, T, prev):
     if style < 0.25 and prev:
         base = rng.choice(prev)                                     # nested in an earlier index
         return sorted(rng.sample(base, rng.randint(0, len(base))))
+    if style < 0.40 and prev:
+        base = rng.choice(prev)                                     # irregular data on the span of an earlier index: the same first and
+        if len(base) >= 3 and base[-1] - base[0] >= len(base):      # last timestamp, (mostly) as many timestamps, other ones in between
+            n = len(base) - 2 if rng.random() < 0.8 else rng.randint(0, base[-1] - base[0] - 1)
+            return [base[0]] + sorted(rng.sample(range(base[0] + 1, base[-1]), n)) + [base[-1]]
     if style < 0.45:
         lo = rng.randint(1, T); hi = rng.randint(lo, min(T, lo + rng.randint(0, 12)))   # a contiguous block (blocks are often disjoint)
         return list(range(lo, hi + 1))
@@ -249,6 +304,34 @@ def rand_ts(rng, i, T, prev, frames=True):
         for col in v:
             col[r0] = ["nan", 0]
     return {"k": "f", "t": idx, "c": cols, "v": v}
+
+
+def rand_array(rng, j):
+    n = rng.randint(0, 6)
+    r = rng.random()
+    if r < 0.2:
+        return {"k": "a", "v": [["b", rng.randint(0, 1)] for _ in range(n)]}
+    if r < 0.5:
+        return {"k": "a", "v": [["f", [rng.choice([100 * j + p, 0, 1, -3]), 1]] for p in range(1, n + 1)]}        # integers, no NaN
+    return {"k": "a", "v": [rand_cell(rng, j, p, 0.2) for p in range(1, n + 1)]}
+
+
+def rand_history(rng):
+    """a presync-ed function, 2-5 steps: calls (each part of the policy overridden with probability 0.3) and derivations"""
+    joins, meths = ['ij', 'oj', 'lj', 'rj'], ['none', 'ffill', 'bfill']
+    dec = {'join': rng.choice(joins), 'm': rng.choice(meths), 'cols': rng.choice(joins)}
+    hist, nobj = [], 1
+    for _ in range(rng.randint(2, 5)):
+        if rng.random() < 0.25 and nobj < 4:
+            hist.append({'op': 'derive', 'f': rng.randint(1, nobj), 'v': rng.choice(joins + meths[1:])})
+            nobj += 1
+        else:
+            hist.append({'op': 'call', 'f': rng.randint(1, nobj),
+                         'ov': {'join': rng.choice(joins) if rng.random() < 0.3 else '-', 'm': rng.choice(meths) if rng.random() < 0.3 else '-',
+                                'cols': rng.choice(joins) if rng.random() < 0.3 else '-'}})
+    if hist[-1]['op'] != 'call':
+        hist.append({'op': 'call', 'f': nobj, 'ov': {'join': '-', 'm': '-', 'cols': '-'}})
+    return dec, hist
 
 
 def rand_tree(rng, members, top_dict_keys=None):
@@ -295,14 +378,26 @@ def rand_pol(rng, T, arrays=False, nmax=6):
     return {"how": "ex", "t": sorted(rng.sample(range(1, T + 4), min(T + 3, rng.choice([0, 1, 3, 8]))))}
 
 
-def c2s(ctx, report, n):
-    obs = []
+def s2c_histories(ctx, cases, budget):
+    """TLC's histories of a presync-ed function replayed on one real object each -> observations for Trace_Sync"""
+    cases = sorted(cases, key=lambda c: json.dumps(c, sort_keys=True))
+    if budget and len(cases) > budget:
+        cases = ctx.rng.sample(cases, budget)
+        ctx.exhaustive = False
+    obs = [call_history(c['tree'], c['dec'], c['hist'], form=n % 6, inforce=c['inforce']) for n, c in enumerate(cases)]
+    ctx.traces += len(obs)
+    ctx.sample({'s2c_history': {k: obs[len(obs) // 2][k] for k in ('dec', 'hist', 'inforce')}})
+    return obs
+
+
+def c2s(ctx, report, n, histories=()):
+    obs = list(histories)
     for i in range(n):
         rng = ctx.rng
         T = rng.choice([4, 8, 30, 30])
-        if i % 5 == 4:          # a collection of bare arrays of lengths 0..6
+        if i % 5 == 4:          # a collection of bare arrays of lengths 0..6 (float / integer / boolean, see x_series.array_dtypes)
             na = rng.randint(1, 5)
-            members = [{"k": "a", "v": [rand_cell(rng, j, p, 0.2) for p in range(1, rng.randint(0, 6) + 1)]} for j in range(1, na + 1)]
+            members = [rand_array(rng, j) for j in range(1, na + 1)]
             pol = rand_pol(rng, T, arrays=True)
         else:
             prev = []
@@ -317,20 +412,26 @@ def c2s(ctx, report, n):
         if i % 25 == 7:         # df_reindex of one bare timeseries (not a collection: df_reindex only)
             bare = [x for x in members if x['k'] in ('s', 'f')]
             if bare:
-                obs.append(call('reindex', bare[0], pol, m, cols, form=rng.randrange(6), rng=rng))
+                obs.append(call('reindex', bare[0], pol, m, cols, form=rng.randrange(36), rng=rng))
         apis = ['reindex'] if explicit_len else rng.sample(['sync', 'reindex', 'presync', 'index'], 2)
         if cols['how'] == 'ex':     # a column set explicitly supplied is df_sync's business (presync takes a join policy for the columns)
             apis = ['sync' if a == 'presync' else a for a in apis]
         for api in apis:
-            obs.append(call(api, tree, pol, m, cols, form=rng.randrange(6), rng=rng))
-    ctx.evals += len(obs)
+            obs.append(call(api, tree, pol, m, cols, form=rng.randrange(36), rng=rng))
+        if i % 6 == 1 and tree['k'] == 'l' or i % 6 == 2 and tree['k'] == 'd':      # a history of calls on one presync-ed function
+            dec, hist = rand_history(rng)
+            obs.append(call_history(tree, dec, hist, form=rng.randrange(6), rng=rng))
+    ctx.evals += sum(len(o['hist']) if o['api'] == 'history' else 1 for o in obs)
     bad = ctx.validate('Trace_Sync', obs)
     for ln, clause in bad:
         o = obs[ln - 1]
         report(clause, case_key(o), {'observed': o['out'], 'after_equals_before': o['after'] == o['tree']})
     rejected = {ln for ln, _ in bad}
     for k, o in enumerate(obs):
-        if k + 1 not in rejected and o['out']['kind'] != 'exc' and (o['out'].get('v') != o['tree']):
+        if o['api'] == 'history':
+            if k + 1 not in rejected and any(s['op'] == 'call' and s['ov'] != {'join': '-', 'm': '-', 'cols': '-'} for s in o['hist'][:-1]):
+                ctx.note(('hist', k))
+        elif k + 1 not in rejected and o['out']['kind'] != 'exc' and (o['out'].get('v') != o['tree']):
             ctx.note(('c2s', k))
     ctx.sample({'c2s_observation': obs[len(obs) // 3]})
     ctx.sample({'c2s_observation': obs[2 * len(obs) // 3]})
@@ -339,6 +440,11 @@ def c2s(ctx, report, n):
 def replay(ctx, body):
     """./check C03 --replay <file>: re-run one recorded case and let Trace_Sync judge it"""
     c = body['case']
+    if c['api'] == 'history':
+        o = call_history(c['tree'], c['dec'], c['hist'], form=c.get('form', 0))
+        bad = ctx.validate('Trace_Sync', [o])
+        print(json.dumps({'observed': o['out'], 'verdict': bad[0][1] if bad else 'explained by the specification'})[:3000])
+        return 1 if bad else 0
     o = call(c['api'], c['tree'], c['pol'], c['method'], c['colpol'], form=c.get('form', 0))
     bad = ctx.validate('Trace_Sync', [o])
     print(json.dumps({'observed': o['out'], 'verdict': bad[0][1] if bad else 'explained by the specification'})[:3000])
@@ -346,30 +452,42 @@ def replay(ctx, body):
 
 
 def run(ctx):
-    ctx.rule = ('S2C: TLC-enumerated collections x policy x method x column policy replayed through df_sync, df_reindex, df_index and a '
-                'presync-decorated recorder, == with the expected outcome; C2S: random collections validated by Trace_Sync. '
-                'Non-trivial = the expected outcome differs from the input collection (something was reindexed, filled, cut or padded); '
-                'distinct by (collection, policy, method, columns).')
+    ctx.rule = ('S2C: TLC-enumerated collections x policy x method x column policy (ij / oj / lj / rj / explicit set / none) replayed through '
+                'df_sync, df_reindex, df_index and a presync-decorated recorder, == with the expected outcome (dict keys in their order, '
+                'containers with their class); TLC-enumerated histories of calls (call-time overrides) and derivations (.oj, .ffill ..) '
+                'on one presync-ed function replayed on one real object and judged by Trace_Sync; C2S: random collections and random '
+                'histories validated by Trace_Sync. '
+                'Non-trivial = the expected outcome differs from the input collection (something was reindexed, filled, cut or padded), '
+                'for a history: a call with an override is followed by another call; distinct by (collection, policy, method, columns) / history.')
     report = Reporter(ctx)
     ctx.exhaustive = True
     if ctx.quick:
         ctx.mc('MC_Sync', 'MC_Sync_quick.cfg')
         s2c(ctx, report, ctx.generate('MC_Sync', 'MC_Sync_gen_quick.cfg'), 2500)
-        s2c(ctx, report, ctx.generate('MC_Sync', 'MC_Sync_gen_frames.cfg'), 1000)
-        s2c(ctx, report, ctx.generate('MC_Sync', 'MC_Sync_gen_cols.cfg'), 700)
-        c2s(ctx, report, 450)
+        s2c(ctx, report, ctx.generate('MC_Sync', 'MC_Sync_gen_frames.cfg'), 1700)         # frames and column-set shapes
+        c2s(ctx, report, 450, s2c_histories(ctx, ctx.generate('MC_SyncHist', 'MC_SyncHist_gen_quick.cfg'), 300))
     else:
         ctx.mc('MC_Sync', 'MC_Sync_thorough.cfg')
         s2c(ctx, report, ctx.generate('MC_Sync', 'MC_Sync_gen_quick.cfg'), 25000)
         s2c(ctx, report, ctx.generate('MC_Sync', 'MC_Sync_gen_frames.cfg'), 0)
-        s2c(ctx, report, ctx.generate('MC_Sync', 'MC_Sync_gen_cols.cfg'), 0)
+        s2c(ctx, report, ctx.generate('MC_Sync', 'MC_Sync_gen_cols.cfg'), 8000)
         s2c(ctx, report, ctx.generate('MC_Sync', 'MC_Sync_gen_thorough.cfg'), 30000)
-        c2s(ctx, report, 6000)
+        ctx.mc('MC_SyncHist', 'MC_SyncHist_thorough.cfg')
+        hs = s2c_histories(ctx, ctx.generate('MC_SyncHist', 'MC_SyncHist_gen_quick.cfg'), 0)
+        hs += s2c_histories(ctx, ctx.generate('MC_SyncHist', 'MC_SyncHist_gen_thorough.cfg'), 4000)
+        c2s(ctx, report, 6000, hs)
     ctx.extra['violation_signatures'] = report.summary()
     ctx.assumptions += [
         'time k is rendered as 2000-01-01 + k days; values are small integers / halves, exactly representable',
         'containers are lists and dicts (the statement names these); tuples only as the *args of a presync call; dict keys other than "index"',
+        'a dict is an ordered container of a class (dict, OrderedDict, pyg Dict, dictattr): "structure preserved" includes the key order seen by '
+        'iteration and the class, at every level; a presync-ed function with **kwargs receives its keywords in the order of the call; string keys',
+        'column policies: ij / oj / lj / rj (first / last multi-column frame met, in the order of iteration) and, for df_sync only, a column set '
+        'explicitly supplied as a pd.Index (a list is not accepted by the API; presync takes a join policy); the order of the columns is no part of a frame',
+        'the dtype of a bare array (float64 / float32 / int64 / int32 / bool) is a rendering; named deviation BoolAsNumber: in a NaN-padded array True / False may be 1 / 0',
+        'a presync-ed function is an object: call-time join= / method= / columns= hold for that call only; .ij/.oj/.lj/.rj/.ffill/.bfill are new objects; '
+        'histories of 2 (thorough 3; random up to 6) steps on up to 4 objects, every call on the same argument objects',
         'a NaN cell is no observation: fill methods look for the last/next non-NaN one (also at timestamps the series has)',
         'frames under a fill method: both readings of "observation" (row / cell) are admitted',
         'bare arrays are 1-d; collections mixing arrays and timeseries are outside the quantifier',
-        'small-scope: MC/S2C over <= 3 (thorough 4) timestamps; C2S over <= 30']
+        'small-scope: MC/S2C over <= 3 (thorough 4) timestamps, irregular indices on a common span over 5 (6); C2S over <= 30']
